@@ -45,7 +45,7 @@ def programs(ctx):
                     # the same formula written differently (an abbreviation expanded somewhere): a different theory atom with the same meaning
                     from props import c16
                     f0 = rng.choice(rules)['head'][1]
-                    ps = [x for x in c16.positions(f0, True) if not findings.fml_has(x[2], ('final', 'finally'))]
+                    ps = c16.positions(f0, True)
                     if ps:
                         pth, law, rep = rng.choice(ps)
                         g = c16.replace(f0, pth, rep)
